@@ -1,0 +1,54 @@
+//go:build verif
+
+package dxil
+
+import (
+	"github.com/gogpu/naga/dxil/internal/passes/dce"
+	"github.com/gogpu/naga/dxil/internal/passes/mem2reg"
+	"github.com/gogpu/naga/dxil/internal/passes/sroa"
+	"github.com/gogpu/naga/ir"
+)
+
+// Verification hooks (build tag "verif" only): expose the DXIL pre-emission IR pipeline so that
+// the transformed *ir.Module can be executed and validated by an external checker.
+
+// VerifPrepareModule runs the clone + inlining step that precedes emission.
+func VerifPrepareModule(m *ir.Module) (*ir.Module, error) { return prepareModule(m) }
+
+// VerifRunOptPasses runs sroa -> mem2reg -> dce on every function of m (in place).
+func VerifRunOptPasses(m *ir.Module) error { return runOptPasses(m) }
+
+// VerifSROA runs scalar replacement of aggregates on every function of m (in place).
+func VerifSROA(m *ir.Module) {
+	for i := range m.EntryPoints {
+		sroa.Run(m, &m.EntryPoints[i].Function)
+	}
+	for i := range m.Functions {
+		sroa.Run(m, &m.Functions[i])
+	}
+}
+
+// VerifMem2Reg runs memory-to-register promotion on every function of m (in place).
+func VerifMem2Reg(m *ir.Module) error {
+	for i := range m.EntryPoints {
+		if err := mem2reg.Run(m, &m.EntryPoints[i].Function); err != nil {
+			return err
+		}
+	}
+	for i := range m.Functions {
+		if err := mem2reg.Run(m, &m.Functions[i]); err != nil {
+			return err
+		}
+	}
+	return nil
+}
+
+// VerifDCE runs dead-code elimination on every function of m (in place).
+func VerifDCE(m *ir.Module) {
+	for i := range m.EntryPoints {
+		dce.Run(m, &m.EntryPoints[i].Function)
+	}
+	for i := range m.Functions {
+		dce.Run(m, &m.Functions[i])
+	}
+}
